@@ -132,10 +132,15 @@ func buildOps(sets [][]int, ephSets [][]int) []opDef {
 
 func configs(tier string) []config {
 	if tier == "thorough" {
+		sessSets := [][]int{{}, {0}, {4}, {2, 3}, {0, 3}, {1, 5}}
 		return []config{
-			{"thorough/notifications-on/all-sets", true, 4, buildOps(allSets(), nil)},
+			{"thorough/sessions/6-sets", true, 5, buildOps(sessSets, [][]int{{3}, {0, 5}, {2}})},
 			{"thorough/notifications-off/all-sets", false, 3, buildOps(allSets(), nil)},
-			{"thorough/sessions/reduced-sets", true, 5, buildOps(reducedSets(), [][]int{{0}, {4}, {2, 3}})},
+			{"thorough/notifications-on/all-sets", true, 3, buildOps(allSets(), nil)},
+			{"thorough/notifications-on/reduced-sets", true, 4, buildOps(reducedSets(), nil)},
+			{"thorough/notifications-off/reduced-sets", false, 4, buildOps(reducedSets(), nil)},
+			// one-off, not part of the tier (about 890 000 transitions): VERIF_CONFIG=all-sets-depth4
+			{"thorough/notifications-on/all-sets-depth4", true, 4, buildOps(allSets(), nil)},
 		}
 	}
 	return []config{
@@ -915,22 +920,30 @@ func main() {
 	}
 	run := ev.NewRun("C15", "model_checking")
 	cfgs := configs(run.Tier)
-	budget := 55 * time.Second
+	budget, perConfig := 55*time.Second, 55*time.Second
 	if run.Tier == "thorough" {
-		budget = 18 * time.Minute
+		budget, perConfig = 18*time.Minute, 6*time.Minute
 	}
 	deadline := time.Now().Add(budget)
 	var depths []string
 	for i := range cfgs {
 		cfg := &cfgs[i]
-		if f := os.Getenv("VERIF_CONFIG"); f != "" && !strings.Contains(cfg.name, f) {
+		if f := os.Getenv("VERIF_CONFIG"); f != "" {
+			if !strings.Contains(cfg.name, f) {
+				continue
+			}
+		} else if strings.HasSuffix(cfg.name, "all-sets-depth4") {
 			continue
 		}
 		t0 := time.Now()
 		if d := os.Getenv("VERIF_DEPTH"); d != "" {
 			fmt.Sscanf(d, "%d", &cfg.depth)
 		}
-		sp := spec(cfg, cfg.depth, deadline)
+		dl := deadline
+		if cap := time.Now().Add(perConfig); cap.Before(dl) && os.Getenv("VERIF_CONFIG") == "" {
+			dl = cap
+		}
+		sp := spec(cfg, cfg.depth, dl)
 		res := seqx.Explore(sp)
 		seqx.Report(run, sp, res)
 		run.Add("distinct_states", res.States)
